@@ -523,6 +523,7 @@ package main
 //@   property C10
 //@   skip safety call-requires
 //@   ensures @print-builtins-are-redirected: old(dyntypeis(node, *ast.CallExpr) && dyntypeis(node.(*ast.CallExpr).Fun, *ast.Ident) && (node.(*ast.CallExpr).Fun.(*ast.Ident).Name == "print" || node.(*ast.CallExpr).Fun.(*ast.Ident).Name == "println")) ==> node.(*ast.CallExpr).Fun.(*ast.Ident).Name == "hidePrint"
+//@   ensures @the-walk-only-stops-below-a-redirected-print: !r0 ==> old(dyntypeis(node, *ast.CallExpr) && dyntypeis(node.(*ast.CallExpr).Fun, *ast.Ident) && (node.(*ast.CallExpr).Fun.(*ast.Ident).Name == "print" || node.(*ast.CallExpr).Fun.(*ast.Ident).Name == "println"))
 //@   ensures @other-calls-are-kept: old(dyntypeis(node, *ast.CallExpr) && dyntypeis(node.(*ast.CallExpr).Fun, *ast.Ident) && node.(*ast.CallExpr).Fun.(*ast.Ident).Name != "print" && node.(*ast.CallExpr).Fun.(*ast.Ident).Name != "println") ==> node.(*ast.CallExpr).Fun.(*ast.Ident).Name == old(node.(*ast.CallExpr).Fun.(*ast.Ident).Name)
 //@ end
 
@@ -827,7 +828,14 @@ package main
 
 //@ func (*reflectInspector).recursivelyRecordUsedForReflectImpl
 //@   property C08
-//@   trusted recursion over go/types graphs with a visited set; only the coverage of its type switch is an obligation here
+//@   requires ri != nil
+//@   skip safety call-requires
+//@   may_panic when true
+//@   ghost walked int = 0
+//@   ensures @type-arguments-are-walked-on-every-path: dyntypeis(t, *types.Named) && !old(visited[t]) && !isnil(t.(*types.Named).Obj().Pkg()) ==> walked == t.(*types.Named).TypeArgs().Len()
+//@   loop 0
+//@     iter walked = walked + 1
+//@     invariant walked == _i
 //@   case_calls *types.Alias: Rhs, recursivelyRecordUsedForReflectImpl
 //@   case_calls *types.Named: !TypeArgs, Obj, Pkg, usedForReflect, recordUsedForReflect, Origin, Underlying, Len, At, recursivelyRecordUsedForReflectImpl
 //@   case_calls *types.Struct: !NumFields, !Field, Pkg, Origin, !Type, !recordUsedForReflect, !recursivelyRecordUsedForReflectImpl
